@@ -2,6 +2,8 @@ import GqlVerif.Props.C04
 import GqlVerif.Proofs.C05Body
 import GqlVerif.Proofs.C04SurjectiveExamples
 import GqlVerif.Proofs.C04SurjectiveSerValid
+import GqlVerif.Proofs.C04RustExamples
+import GqlVerif.Proofs.C04RustCoercionWitness
 open GqlVerif.C04
 #print axioms GqlVerif.C01.ser_fields_iff
 #print axioms variables_fields_are_declared
@@ -37,3 +39,28 @@ open GqlVerif.C04
 #print axioms GqlVerif.C04S.int64_not_graphql_int
 #print axioms GqlVerif.C04S.enum_other_not_declared
 #print axioms GqlVerif.C04S.id_written_as_string
+-- variables under normalization rust; GraphQL's single-value-to-list coercion (Proofs/C04Rust*.lean)
+#print axioms GqlVerif.C04R.hasTy_rename
+#print axioms GqlVerif.C04R.hasTy_rename_ser
+#print axioms GqlVerif.C04R.hasTy_rename_back
+#print axioms GqlVerif.C04R.variables_expressible_rust
+#print axioms GqlVerif.C04R.variables_ser_valid_rust
+#print axioms GqlVerif.C04R.no_variables_expressible_rust
+#print axioms GqlVerif.C04R.variables_expressible_rust'
+#print axioms GqlVerif.C04R.variables_ser_valid_rust'
+#print axioms GqlVerif.C04R.rx_expressible
+#print axioms GqlVerif.C04R.rx_differ
+#print axioms GqlVerif.C04R.valid_validC
+#print axioms GqlVerif.C04R.validC_coerce
+#print axioms GqlVerif.C04R.coerce_of_valid
+#print axioms GqlVerif.C04R.varsValid_coerce
+#print axioms GqlVerif.C04R.valid_mod_coercion_expressible
+#print axioms GqlVerif.C04R.valid_mod_coercion_expressible_rust
+#print axioms GqlVerif.C04R.ser_list_is_list
+#print axioms GqlVerif.C04R.ser_listTy_null_or_list
+#print axioms GqlVerif.C04R.valid_list_shape
+#print axioms GqlVerif.C04R.bare_value_not_expressible
+#print axioms GqlVerif.C04R.bare_value_not_expressible_rust
+#print axioms GqlVerif.C04R.coerced_not_expressible
+#print axioms GqlVerif.C04R.cx_expressible
+#print axioms GqlVerif.C04R.cx_expressible_rust
